@@ -47,7 +47,7 @@ Section Sound.
   Proof. atomic. eapply in_size_sub; eauto. Qed.
 
   Lemma recv_float lo hi : forall b, good b -> recv (TFloat lo hi) b = true -> sub (TFloat lo hi) b.
-  Proof. atomic. eapply in_size_sub; eauto. Qed.
+  Proof. atomic; [eapply float_in_sub|eapply float_unbounded_sub]; eauto. Qed.
 
   Lemma flat4_sound c1 c2 c3 c4 b x :
     good b -> flat c1 b || flat c2 b || flat c3 b || flat c4 b = true -> inst b x = true ->
